@@ -239,7 +239,7 @@ def _pattern(mod, node):
       if isinstance(v, ast.Constant):
         out.append(str(v.value))
       elif isinstance(v, ast.FormattedValue):
-        d = mod.assigns.get(v.value.id) if isinstance(v.value, ast.Name) else None
+        d = mod.assigns.get(v.value.id) if isinstance(v.value, ast.Name) else (v.value if isinstance(v.value, ast.Constant) else None)
         if isinstance(d, ast.Constant) and isinstance(d.value, str) and v.format_spec is None:
           out.append(d.value)
         else:
